@@ -20,32 +20,48 @@ def header (v : Version) (signerPub : Bytes) (typ : Int) (nonce : Bytes) : SigHe
 /-- the length of the random header nonce (`type sigNonce [16]byte`) -/
 def sigNonceLen : Nat := 16
 
-/-- `signBlock` -/
-def block (v : Version) (signer headerHash : Bytes) (seqno : Nat) (chunk : Bytes) (isFinal : Bool) :
-    Except Err Bytes :=
+/-- `signBlock`, as the packet structure -/
+def blockStruct (v : Version) (signer headerHash : Bytes) (seqno : Nat) (chunk : Bytes) (isFinal : Bool) :
+    Except Err SigBlock :=
   match attachedSignatureInput P v headerHash chunk seqno isFinal with
   | .error e => .error e
-  | .ok inp =>
-    match sigBlockVal v (P.sign signer inp) chunk isFinal with
-    | .error e => .error e
-    | .ok val => .ok (encode val)
+  | .ok inp => .ok ⟨P.sign signer inp, chunk, isFinal⟩
 
-def blocks (v : Version) (signer headerHash : Bytes) : List (Bytes × Bool) → Nat → Except Err Bytes
+def blockStructs (v : Version) (signer headerHash : Bytes) : List (Bytes × Bool) → Nat → Except Err (List SigBlock)
   | [], _ => .ok []
   | (c, f) :: rest, i =>
-    match block P v signer headerHash i c f, blocks v signer headerHash rest (i + 1) with
-    | .ok b, .ok bs => .ok (b ++ bs)
+    match blockStruct P v signer headerHash i c f, blockStructs v signer headerHash rest (i + 1) with
+    | .ok b, .ok bs => .ok (b :: bs)
     | .error e, _ => .error e
     | _, .error e => .error e
 
-/-- `Sign` / `NewSignStream`+writes+`Close` given the header nonce (after the D4
-    fix: unknown versions are refused up front) -/
-def attachedWith (bs : Nat) (v : Version) (signer nonce msg : Bytes) : Except Err Bytes :=
+def encodeBlocks (v : Version) : List SigBlock → Except Err Bytes
+  | [] => .ok []
+  | b :: bs =>
+    match sigBlockVal v b.sig b.chunk b.final, encodeBlocks v bs with
+    | .ok val, .ok rest => .ok (encode val ++ rest)
+    | .error e, _ => .error e
+    | _, .error e => .error e
+
+/-- what `Sign` produces, as structures (after the D4 fix: unknown versions are
+    refused up front) -/
+def attachedPackets (bs : Nat) (v : Version) (signer nonce msg : Bytes) :
+    Except Err (SigHeader × Bytes × List SigBlock) :=
   if !knownVersion v then .error .badVersion
   else
-    let headerBytes := encode (header v (P.sigPub signer) mtAttached nonce).toVal
+    let h := header v (P.sigPub signer) mtAttached nonce
+    let headerBytes := encode h.toVal
     let hh := P.hash headerBytes
-    match blocks P v signer hh (Encrypt.chunkPlan v bs msg) 0 with
+    match blockStructs P v signer hh (Encrypt.chunkPlan v bs msg) 0 with
+    | .error e => .error e
+    | .ok blks => .ok (h, headerBytes, blks)
+
+/-- `Sign` / `NewSignStream`+writes+`Close` given the header nonce -/
+def attachedWith (bs : Nat) (v : Version) (signer nonce msg : Bytes) : Except Err Bytes :=
+  match attachedPackets P bs v signer nonce msg with
+  | .error e => .error e
+  | .ok (_, headerBytes, blks) =>
+    match encodeBlocks v blks with
     | .error e => .error e
     | .ok body => .ok (headerPacket headerBytes ++ body)
 
